@@ -304,7 +304,8 @@ func runC32(c *fw.Ctx) {
 	var fails hFailures
 	refused := map[string]int{}
 	var rmu = make(chan struct{}, 1)
-	c.ParDo(len(cases), 0, func(i int) {
+	c.ParDo(len(cases), 0, func(k int) {
+		i := hSpread(k, len(cases))
 		v := cases[i]
 		sig, class := e.run(v)
 		c.Eval()
